@@ -244,11 +244,13 @@ func multiScalarmultVartime(r *ge25519.Ge25519, heap *batchHeap, count int) {
 			extended = true
 		}
 
+		verifHeapEvent(heap, 0, max1, max2, limbSize, extended)
 		modm.SubVartime(&heap.scalars[max1], &heap.scalars[max1], &heap.scalars[max2], limbSize)
 		ge25519.Add(&heap.points[max2], &heap.points[max2], &heap.points[max1])
 		heapUpdatedRoot(heap, limbSize)
 	}
 
+	verifHeapEvent(heap, 1, max1, max2, limbSize, extended)
 	multiScalarmultVartimeFinal(r, &heap.points[max1], &heap.scalars[max1])
 }
 
@@ -318,10 +320,12 @@ func VerifyBatch(rand io.Reader, publicKeys []PublicKey, messages, sigs [][]byte
 		}
 
 		batchOk := true
+		verifBatchEvent(rand, verifEvChunkBegin, offset, batchSize)
 		failBatch := func(index int) {
 			ret |= 2             // >= 1 signatures in the batch failed
 			valid[index] = false // and the failures incude signature[index]
 			batchOk = false      // and we should use the fallback path
+			verifBatchEvent(rand, verifEvFailBatch, index, 0)
 		}
 
 		// generate r (scalars[batchsize+1]..scalars[2*batchsize]
@@ -351,6 +355,7 @@ func VerifyBatch(rand io.Reader, publicKeys []PublicKey, messages, sigs [][]byte
 				// in the batch.
 				ret |= 2                // >= 1 signature in the batch failed
 				valid[i+offset] = false // and the failues include this one
+				verifBatchEvent(rand, verifEvMarked, i+offset, 0)
 			}
 
 			modm.Expand(&batch.scalars[i], sigs[i+offset][32:])
@@ -424,11 +429,13 @@ func VerifyBatch(rand io.Reader, publicKeys []PublicKey, messages, sigs [][]byte
 				// fails, since we will iteratively check every single
 				// signature in the batch.
 				batchOk = isNeutralVartime(&p)
+				verifBatchEvent(rand, verifEvEquation, verifBool(batchOk), 0)
 			}
 		}
 
 		// fallback
 		if !batchOk {
+			verifBatchEvent(rand, verifEvFallback, offset, batchSize)
 			for i := 0; i < batchSize; i++ {
 				// If the signature is already tagged as invalid (s was out
 				// of range according to the IETF, inputs were malformed,
@@ -444,9 +451,11 @@ func VerifyBatch(rand io.Reader, publicKeys []PublicKey, messages, sigs [][]byte
 					valid[i+offset] = sigOk
 				}
 				ret |= boolToRet(sigOk)
+				verifBatchEvent(rand, verifEvFallbackOne, i+offset, verifBool(sigOk))
 			}
 		}
 
+		verifBatchEvent(rand, verifEvChunkEnd, offset, batchSize)
 		offset += batchSize
 		num -= batchSize
 	}
@@ -457,6 +466,7 @@ func VerifyBatch(rand io.Reader, publicKeys []PublicKey, messages, sigs [][]byte
 		sigOk, _ := verifyWithOptionsNoPanic(publicKeys[i+offset], messages[i+offset], sigs[i+offset], opts)
 		valid[i+offset] = sigOk
 		ret |= boolToRet(sigOk)
+		verifBatchEvent(rand, verifEvRemainder, i+offset, verifBool(sigOk))
 	}
 
 	return (ret == 0), valid, nil
